@@ -141,6 +141,19 @@ void FusionEngineFramer::SetBuffer(void* buffer, size_t capacity_bytes) {
   capacity_bytes_ =
       static_cast<uint32_t>(capacity_bytes - (buffer_ - buffer_unaligned));
 
+  // Aligning the start of the buffer may have consumed up to 3 bytes. Make sure
+  // what is left can still hold a message header; otherwise collecting a header
+  // would write past the end of the buffer.
+  if (capacity_bytes_ < sizeof(MessageHeader)) {
+    LOG(ERROR) << "FusionEngine framing buffer too small after alignment. "
+                  "[capacity="
+               << capacity_bytes_ << " B, min=" << sizeof(MessageHeader)
+               << " B]";
+    ClearManagedBuffer();
+    buffer_ = nullptr;
+    capacity_bytes_ = 0;
+  }
+
   Reset();
 }
 
